@@ -171,6 +171,60 @@ def _dispatch(repo, rep):
     rep.check(ok_q, "R06.1", f.qualname, "'<!--?' comments are emitted "
               "literally, nothing is evaluated", construct="comment-q",
               where=L.where(f))
+    # ... and it is the comment as written minus the one marker character:
+    # nothing else of the text may go (str.lstrip with a character SET eats
+    # every leading '<', '!', '-', '?' of the comment text as well)
+    strips = []
+    for q_, fn in sorted(repo.funcs.items()):
+        if not q_.startswith((PROG, "chameleon.parser.",
+                              "chameleon.tokenize.", COMP)):
+            continue
+        for n in ast.walk(fn.node):
+            if isinstance(n, ast.Call) and isinstance(n.func, ast.Attribute) \
+                    and n.func.attr in ("strip", "lstrip", "rstrip") and \
+                    n.args and isinstance(n.args[0], ast.Constant) and \
+                    isinstance(n.args[0].value, str) and \
+                    len(set(n.args[0].value.strip())) >= 2:
+                strips.append((fn, n))
+    rep.check(not strips, "R06.1", f.qualname, "no markup text is trimmed "
+              "with a set of two or more non-blank characters (a marker is a "
+              "prefix, removed by position)", construct="marker-not-a-set",
+              where=L.where(strips[0][0], strips[0][1].lineno) if strips
+              else L.where(f), detail="; ".join(
+                  "%s: %s" % (a.qualname, src(b)) for a, b in strips[:3]))
+    okq = False
+    for r_ in ast.walk(f.node):
+        if not isinstance(r_, ast.Return) or r_.value is None:
+            continue
+        gs = [(src(P._cond(t_, True, None)[1]),
+               P._cond(t_, True, None)[2] == v_)
+              for t_, v_ in L.guards_of(r_, f.node)
+              if isinstance(t_, ast.AST) and not isinstance(
+                  t_, ast.ExceptHandler)]
+        if not L.cond_holds(gs, "node.startswith('<!--?')", True):
+            continue
+        e = L.inline_locals(f.node, r_.value)
+        def five(x):
+            return (isinstance(x, ast.Constant) and x.value == 5) or \
+                src(x) in ("len('<!--?')", 'len("<!--?")')
+        sl = [x for x in ast.walk(e) if isinstance(x, ast.Subscript)
+              and src(x.value) == "node" and isinstance(x.slice, ast.Slice)
+              and x.slice.upper is None and x.slice.lower is not None
+              and five(x.slice.lower)]
+        sl += [x for x in ast.walk(e) if isinstance(x, ast.Call)
+               and src(x.func) == "node.removeprefix" and len(x.args) == 1
+               and isinstance(x.args[0], ast.Constant)
+               and x.args[0].value == "<!--?"]
+        lit = [x for x in ast.walk(e) if isinstance(x, ast.Constant)
+               and x.value == "<!--"]
+        whole = [x for x in ast.walk(e) if isinstance(x, ast.Call)
+                 and src(x.func) == "node.replace" and len(x.args) == 3
+                 and [getattr(a, "value", None) for a in x.args] ==
+                 ["<!--?", "<!--", 1]]
+        okq = (bool(sl) and bool(lit)) or bool(whole)
+    rep.check(okq, "R06.1", f.qualname, "a '<!--?' comment is written as "
+              "'<!--' followed by everything after the marker (node[5:])",
+              construct="comment-q-text", where=L.where(f))
     rep.check(ok_opt, "R06.1", f.qualname, "with comment interpolation "
               "disabled every comment is emitted literally",
               construct="comment-option", where=L.where(f))
